@@ -103,19 +103,29 @@ def replay_one(job):  # pylint: disable=too-many-locals,too-many-branches,too-ma
     names = pool.names(leaves)
     model = [vx.from_model(v) for v in job["r"]]
     mkind = model[0][0]
-    raw = vx.build(prog, leaves, evaluate=False)
-    for i, env in enumerate(envs):           # the harness' reading of the program must agree with the model
-        got = vx.evaluate(raw, env)
-        if not vx.same_value(mkind, model[i][1], got):
-            raise HarnessBug(f"{vx.prog_str(prog)}: as written evaluates to {vx.show(got)}, model {job['r'][i]}")
     out = []
-    modes = [("auto", "val", lambda: vx.build(prog, leaves, evaluate=True)), ("doit", "val", raw.doit)]
+    try:
+        raw = vx.build(prog, leaves, evaluate=False)
+    except ValueError as e:
+        # the library takes an unevaluated scalar product with a literal 0 factor for the zero vector and then
+        # refuses to scale a vector by it; the expression as written cannot be represented: not decided
+        raw = None
+        out.append(dict(mode="doit", status="outside", what=f"expression as written is refused by the constructors: {e}"))
+    if raw is not None:
+        for i, env in enumerate(envs):           # the harness' reading of the program must agree with the model
+            got = vx.evaluate(raw, env)
+            if not vx.same_value(mkind, model[i][1], got):
+                raise HarnessBug(f"{vx.prog_str(prog)}: as written evaluates to {vx.show(got)}, model {job['r'][i]}")
+    modes = [("auto", "val", lambda: vx.build(prog, leaves, evaluate=True))]
+    if raw is not None:
+        modes.append(("doit", "val", raw.doit))
     if kind == "diff":
         from symplyphysics.core.experimental.vectors import vector_diff
-        modes += [("diff", "diff", lambda: vx.build(prog, leaves, evaluate=True).diff(pool.t)),
-                  ("diff-as-written", "diff", lambda: raw.diff(pool.t))]
-        if mkind == "v":
-            modes.append(("vector_diff", "diff", lambda: vector_diff(raw, pool.t)))
+        modes.append(("diff", "diff", lambda: vx.build(prog, leaves, evaluate=True).diff(pool.t)))
+        if raw is not None:
+            modes.append(("diff-as-written", "diff", lambda: raw.diff(pool.t)))
+            if mkind == "v":
+                modes.append(("vector_diff", "diff", lambda: vector_diff(raw, pool.t)))
     for mode, which, fn in modes:
         res = _call(fn, DIFF_LIMIT_S)
         if res[0] == "recursion" and which == "diff":      # deterministic: the recursion never bottoms out
